@@ -1,3 +1,4 @@
+import Agd.Tie.TrC09
 import Agd.Lemmas.Ratelimit
 import Agd.Lemmas.RatelimitHist
 import Agd.Lemmas.RatelimitConc
@@ -700,3 +701,9 @@ end Agd.Ratelimit
 #print axioms Agd.Ratelimit.subnet_isolation_dynamic_allowlist
 #print axioms Agd.Ratelimit.subnetKey_eq_iff_same_leading_bits
 #print axioms Agd.Ratelimit.prefix_contains_iff_same_leading_bits
+#print axioms Agd.Tie.TrC09.translation_complete
+#print axioms Agd.Tie.TrC09.backoff_drops_without_counting
+#print axioms Agd.Tie.TrC09.allowlisted_passes_uncounted
+#print axioms Agd.Tie.TrC09.refuse_any_for_everyone
+#print axioms Agd.Tie.TrC09.counted_with_family_limits
+#print axioms Agd.Tie.TrC09.counter_add
